@@ -28,6 +28,19 @@ CLAIMED = {
            "swag.SplitByFormat/ConvertInt/ConvertBool (dependencies, transcribed). Outside the fragment (not claimed by the theorems, not yet sent): path, multipart and body parameters, "
            "number and strfmt formats, patterns, defaults and nested arrays."),
  },
+ "C04": {
+  "technique": "Lean 4 proof (round trip client encoding -> server binding for all representable values of the parameter fragment; response dispatch decision logic) + generated client calling generated server over loopback HTTP",
+  "text": ("Proof on the simple-parameter fragment, partial: `encodeGen` is what client/parameter.gotmpl writes, `bindGenAny` (C03) what server/parameter.gotmpl binds; split_join proves SplitByFormat inverts "
+           "JoinByFormat on items that are not empty, carry no surrounding blanks and do not contain the separator; roundtrip_scalar / roundtrip_array / roundtrip_multi: for EVERY parameter spec and EVERY "
+           "spec-satisfying representable value the handler receives exactly the value given (multi needs no representability hypothesis); roundtrip_absent; unrepresentable_differs shows the hypothesis is "
+           "necessary; string_codec / bool_codec by computation, the integer decimal codec is an explicit hypothesis of the theorems (boundary values by decide, every integer sent is checked by the "
+           "correspondence). dispatch_*: the client's response switch as decision logic (declared 2xx -> typed result, declared non-2xx -> typed error, default non-2xx -> typed default error, default 2xx "
+           "-> APIError wrapping the default, no default -> APIError with the code); dispatch_total. Tie: a generated client calls the generated server of the same spec in one process; struct given vs "
+           "struct seen, scripted typed responder vs client result/error, and both vs the Lean functions on the same inputs."),
+  "note": ("Trusted: Lean kernel + audited axioms; genlab pair lab (generated client + server + glue main); encoding/json projections. Modelled rather than verified: the templates (transcribed), "
+           "swag.JoinByFormat/SplitByFormat/FormatInt/ConvertInt (dependencies, transcribed), net/http and the runtime's escaping (exercised only). Outside the fragment: security, tags, file/multipart "
+           "parameters, number and strfmt formats, nested arrays, non-JSON media types, streaming bodies; bodies and response headers are exercised (one object shape, integer and string headers), not modelled."),
+ },
  "C05": {
   "technique": "Lean 4 proof (properties of the tolerated-difference relation for all schemas and documents) + compiled generated models round-tripped on valid instances",
   "text": ("Proof, partial: `tolerated` is the decidable relation the property allows between a valid document and its decode/encode image; for ALL schemas and documents: "
